@@ -57,7 +57,7 @@ struct SeqHarness : HarnessBase {
 
 	void reset() {
 		world_reset();
-		for(int a = 0; a < 2; a++) { memset(store[a], 0, sizeof(V)); new(store[a]) V(TrackAlloc{}); alive[a] = true; ref[a].clear(); }
+		for(int a = 0; a < 2; a++) { memset(store[a], 0xA5, sizeof(V)); new(store[a]) V(TrackAlloc{}); alive[a] = true; ref[a].clear(); }
 	}
 	// capacity proxy, observed at the allocator seam: number of elements the current heap block holds
 	// (0 = no heap block, i.e. empty or inline)
@@ -187,7 +187,7 @@ struct DynHarness : HarnessBase {
 	V &s(int a) { return *reinterpret_cast<V *>(store[a]); }
 	void reset() {
 		world_reset();
-		for(int a = 0; a < 2; a++) { memset(store[a], 0, sizeof(V)); new(store[a]) V(); alive[a] = true; ref[a].clear(); }
+		for(int a = 0; a < 2; a++) { memset(store[a], 0xA5, sizeof(V)); new(store[a]) V; alive[a] = true; ref[a].clear(); }
 	}
 	enum { D_SIZED, D_DEFAULT, D_ALLOC, D_COPY, D_MOVE, D_ASSIGN, D_MASSIGN, D_SWAP, D_SET, D_SELF };
 	void ops(std::vector<uint32_t> &out) {
@@ -257,7 +257,7 @@ struct StackHarness : HarnessBase {
 	StackHarness(int c) : cap(c) {}
 	const char *prop() const { return "C13"; }
 	V &s() { return *reinterpret_cast<V *>(store); }
-	void reset() { world_reset(); memset(store, 0, sizeof store); new(store) V(TrackAlloc{}); alive = true; ref.clear(); }
+	void reset() { world_reset(); memset(store, 0xA5, sizeof store); new(store) V(TrackAlloc{}); alive = true; ref.clear(); }
 	void ops(std::vector<uint32_t> &out) {
 		if((int)ref.size() < cap) { out.push_back(mkop(0, 0, 1)); out.push_back(mkop(0, 0, 2)); out.push_back(mkop(1, 0, 1)); out.push_back(mkop(1, 0, 2)); }
 		if(!ref.empty()) out.push_back(mkop(2, 0));
@@ -289,7 +289,7 @@ struct ListHarness : HarnessBase {
 	ListHarness(int c) : cap(c) {}
 	const char *prop() const { return "C13"; }
 	V &s() { return *reinterpret_cast<V *>(store); }
-	void reset() { world_reset(); memset(store, 0, sizeof store); new(store) V(TrackAlloc{}); alive = true; ref.clear(); }
+	void reset() { world_reset(); memset(store, 0xA5, sizeof store); new(store) V(TrackAlloc{}); alive = true; ref.clear(); }
 	void ops(std::vector<uint32_t> &out) {
 		if((int)ref.size() < cap) { out.push_back(mkop(0, 0, 1)); out.push_back(mkop(0, 0, 2)); }
 		if(!ref.empty()) out.push_back(mkop(1, 0));
